@@ -3103,7 +3103,9 @@ write_module_class(ostream &out, Object *obj) {
       out << "  int cmpval = " << slots["tp_compare"]._wrapper_name << "(self, arg);\n";
       out << "  if (cmpval == -1 && PyErr_Occurred()) {\n";
       out << "    if (PyErr_ExceptionMatches(PyExc_TypeError)) {\n";
+      out << "      // The other object cannot be compared with this one.\n";
       out << "      PyErr_Clear();\n";
+      out << "      return Py_NewRef(Py_NotImplemented);\n";
       out << "    } else {\n";
       out << "      return nullptr;\n";
       out << "    }\n";
